@@ -10,7 +10,11 @@ import pandas as pd
 from common import rq, unrq, enc_list, dec_list, close
 
 REQUIRED = ['lhm_linear', 'closed_form_root', 'root_solves', 'cramer_solves', 'closed_form_is_root',
-            'closed_form_none_iff', 'root_unique', 'root_unique_general', 'one_param_saturated']
+            'closed_form_none_iff', 'root_unique', 'root_unique_general', 'one_param_saturated',
+            # Props/C15_Gen.lean: the code regenerated from g_estimation.py is the model, and the property for it
+            'snm_closed_lhm_generated', 'snm_closed_rha_generated', 'snm_fit_weight_col_generated',
+            'snm_fit_closed_generated', 'snm_fit_closed_cramer', 'snm_fit_closed_root', 'snm_fit_closed_unique',
+            'snm_search_hpsi_generated', 'snm_search_objective_zero_iff', 'snm_search_zero_is_closed_form']
 RULE = ('every cell of outcome type {continuous, binary} x SNM {A, A + A:V, A + A:V + A:W} x weights {none, column} x '
         'missing outcome {none, dropped (no model), missing_model stabilized, missing_model unstabilized} gets fresh '
         'random data sets (n 80-260, binary/3-level/continuous covariates, random exposure model, shuffled or '
